@@ -66,6 +66,17 @@ def run(chk):
     for name in RANGED:
         if name not in special:
             files += indfam.record(chk, yv, "c12", 2 if quick else 6, 9, 140 if quick else 500, only=name, range_regimes=True)
+    # trading halts (the last close repeated for 3..42 bars, then trading resumes) on every ranged indicator; the indicators with
+    # an open finding one program per trace, so that a residue-explained rejection does not hide what comes later in other programs
+    os.environ["YV_HALTS"] = "1"
+    try:
+        for name in RANGED:
+            if name in special:
+                files += indfam.record(chk, yv, "c12halt", 12 if quick else 40, 1, 200 if quick else 600, only=name)
+            else:
+                files += indfam.record(chk, yv, "c12halt", 1 if quick else 4, 6, 200 if quick else 600, only=name)
+    finally:
+        os.environ.pop("YV_HALTS", None)
     for name in special:
         files += indfam.record(chk, yv, "c12", 2 if quick else 6, 6, 200 if quick else 600, only=name, force_drop=True)
         # the recorded witness of the finding (its configuration on a scripted stream: volatile, scale drop, exactly flat, volatile)
